@@ -124,6 +124,9 @@ func chownR(path string) {
 // setup creates the run directory, builds the profiler and the fake tool directory.
 func setup(sum *Summary) (*env, error) {
 	e := &env{sum: sum, seen: map[string]bool{}}
+	if os.Geteuid() != 0 {
+		return nil, fmt.Errorf("vprof must run as root: the profiler is started under uid %d, which has no passwd entry, so that os/user falls back to $HOME", runUID)
+	}
 	e.verifDir = os.Getenv("VERIF_DIR")
 	if e.verifDir == "" {
 		e.verifDir = "/verif"
